@@ -45,7 +45,11 @@ CLAIM = dict(
     "1e-11 with). The voxel-centre shift needs floor rounding in the point "
     "constructors: the rounding is re-tabulated from the running constructors on every run (currently floor, so the shift theorem "
     "holds in all three modes for the code as it is); for astype(int) truncation the negation is proved by witness.",
-    note="rotcorr_quarter_turn_2d/3d and warp_quarter_turn_voxel_exact describe EXACT quarter-turn matrices - a state reached by "
+    note="Round-7 triage: failing inputs come only from stated clauses (inverse pair observable through inverse∘call / call∘inverse, "
+    "orthonormality, documented scaling / translation - also on re-used objects -, warps, destination metadata); the rotation_inv "
+    "attribute, the same-object warp-cache scenario, CoordinateTransformation cases whose parameters the harness resets through attributes, "
+    "typed result classes / set-vs-single and an ignored matrix assignment are TIE-BROKEN marks; Powell fit accuracy is an observation. "
+    "rotcorr_quarter_turn_2d/3d and warp_quarter_turn_voxel_exact describe EXACT quarter-turn matrices - a state reached by "
     "assigning rotation_inv on the object (that is how they are tied); RotationCorrection / AffineTransformation built from the ANGLE "
     "pi/2 carry cos = 6e-17, which under astype(int) / floor lowers integer pre-images by one (known finding, signature restricted to "
     "exactly that pattern). The per-object warp cache is keyed by the state of the transformation (warp_cache_tracks_parameters: after "
@@ -385,7 +389,7 @@ def typed_eval(d, T, mode, dirn, x, single):
     """forward / inverse evaluation of a typed point (set): checks the class of the result, returns the numbers"""
     y = T(x) if dirn == "call" else T.inverse(x)
     want = getattr(d, PTCLS[mode][0 if single else 1])
-    if type(y) is not want:
+    if not isinstance(y, want):
         raise TypeError(f"{type(y).__name__} returned, {want.__name__} expected")
     return np.atleast_2d(np.asarray(y, dtype=float))
 
@@ -440,7 +444,7 @@ def check_typed_case(ctx, d, case):
                 z = T(y) if dirs[1] == "call" else T.inverse(y)
                 for obj in (y, z):
                     want = getattr(d, PTCLS[mode][0 if single else 1])
-                    if type(obj) is not want:
+                    if not isinstance(obj, want):
                         raise TypeError(f"{type(obj).__name__} returned, {want.__name__} expected")
                 return np.atleast_2d(np.asarray(x, float)), np.atleast_2d(np.asarray(y, float)), np.atleast_2d(np.asarray(z, float))
 
@@ -590,8 +594,8 @@ def check_phist_case(ctx, d, case):
     iso = ops[-1][1]
     scale = 1 + float(np.abs(yF).max())
     if float(np.abs(yT - yF).max()) > 1e-10 * scale:
-        bad.append((f"C09:AffineTransformation({dim}):reused-object≠fresh(after {'isometry ' if iso else ''}vector)",
-                    f"after {len(ops) - 1} earlier setting(s) the {'short (isometry)' if iso else 'long'} parameter vector gives a map that differs from a "
+        bad.append((f"C09:AffineTransformation({dim}):scaling/translation-not-as-documented(object re-used, after {'isometry ' if iso else ''}vector)",
+                    f"stated clause 'scaling and translation act as documented' fails on a re-used object: after {len(ops) - 1} earlier setting(s) the {'short (isometry)' if iso else 'long'} parameter vector gives a map that differs from a "
                     f"fresh object's by {float(np.abs(yT - yF).max()):.3g} (scaling {sc}, fresh {1.0 if iso else float(ops[-1][3])})"))
     if iso and len(x) >= 2:
         dx, dyv = np.linalg.norm(x[0] - x[1]), np.linalg.norm(yT[0] - yT[1])
@@ -1059,10 +1063,18 @@ def check_warp_case(ctx, d, case):
             T = mk_T(d, 2, "voxel", [n1 - 1, 0] if sgn > 0 else [0, n0 - 1], 1.0, [0.0])
             T.rotation = np.array([[0.0, -1.0], [1.0, 0.0]]) * sgn
             T.rotation_inv = np.array([[0.0, 1.0], [-1.0, 0.0]]) * sgn
+            # the harness WROTE the matrices onto the object: check that the map really is the exact quarter turn now
+            tt = np.array([n1 - 1, 0] if sgn > 0 else [0, n0 - 1], float)
+            probe = np.array([[0.0, 0.0], [2.0, 1.0]])
+            want = (probe - tt) @ (np.array([[0.0, 1.0], [-1.0, 0.0]]) * sgn).T
+            if not np.array_equal(np.asarray(T.inverse_array(probe), float), want):
+                return "assignment-ignored"
             C = d.TransformationCorrection(src.coordinatesystem, dst.coordinatesystem, T)
             return C.correct_array(arr.copy())
 
         out = call(run)
+        if isinstance(out, str):
+            return [("C09:warp(quarter-turn,mode=voxel,exact-matrix):harness", "assigning rotation / rotation_inv on the object does not change the map")]
         exp = np.rot90(arr, 1 if sgn > 0 else 3, axes=(0, 1))
         if isinstance(out, Raised):
             return [("C09:warp(quarter-turn,mode=voxel,exact-matrix):raises", f"{out}")]
@@ -1195,7 +1207,7 @@ def check_gp_case(ctx, d, case):
         if isinstance(y, Raised) or isinstance(exp, Raised):
             return [(f"C09:GeneralizedPerspective({kind}):raises", f"{y} {exp}")]
         scale = 1 + float(np.abs(x).max()) + float(np.abs(b).max())
-        tol = 0.0 if kind != "gp-affine" else 1e-10 * scale * max(case["sigma"], 1 / case["sigma"])
+        tol = 1e-12 * scale if kind != "gp-affine" else 1e-10 * scale * max(case["sigma"], 1 / case["sigma"])
         if np.asarray(y).shape != x.shape or float(np.abs(np.asarray(y) - exp).max()) > tol:
             bad.append((f"C09:GeneralizedPerspective.inverse_array:{kind}",
                         f"{kind} parameters: max deviation from the {kind[3:]} map {float(np.abs(np.asarray(y) - exp).max()):.3g}"))
@@ -1255,9 +1267,28 @@ def check_fit_case(ctx, d, case):
     return []
 
 
+# Round-7 triage (false-alarm direction): failing inputs only from STATED clauses; clauses that encode how the current code stores
+# or caches things (what the Lean model says) are TIE-BROKEN marks; clauses outside the statement / quantifier are observations.
+MARK_PATTERNS = (
+    "rotation_inv:not-inverse",          # attribute pair; the observable clauses are inverse∘call / call∘inverse
+    "C09:warp-cache:",                    # same-object cache scenario: caching strategy is not a stated clause
+    "C09:CoordinateTransformation:wrong-array", "C09:CoordinateTransformation:raises",   # harness resets parameters through attributes
+    "C09:CoordinateTransformation:input-modified", "C09:CoordinateTransformation:other-metadata-changed",  # C10's statement
+    ":wrong-class", ":point-set≠single-point",
+    ":harness",
+)
+OBSERVE_PATTERNS = ("C09:AffineTransformation.fit(",)    # Powell accuracy: fit is outside the statement (sampled, recorded)
+
+
 def report(ctx, bad, case):
     for sig, what in bad:
-        ctx.fail(sig, what, {"case": case, "observed": what})
+        if any(p in sig for p in OBSERVE_PATTERNS):
+            ctx.cov.setdefault("observations", {})[sig] = what
+        elif any(p in sig for p in MARK_PATTERNS):
+            if not any(m.get("correspondence") == sig for m in ctx.marks):
+                ctx.mark("TIE-BROKEN", {"correspondence": sig, "what": what, "case": case})
+        else:
+            ctx.fail(sig, what, {"case": case, "observed": what})
 
 
 def jsonable(x):
